@@ -10,3 +10,8 @@ impl SleepFut {
                                        slept_since_done: old(tr).slept_since_done + self.d.nanos as nat, ..*old(tr) }),
     { unimplemented!() }
 }
+/// tokio::time::sleep_until(deadline): the timer's duration is the distance from the clock's current ghost instant to the deadline
+#[verifier::external_body]
+pub fn sleep_until(deadline: Instant, clk: &Clock) -> (r: SleepFut)
+    ensures r.d.nanos == (if deadline.t >= clk.now@ { (deadline.t - clk.now@) as u128 } else { 0 })
+{ unimplemented!() }
